@@ -111,7 +111,7 @@ theorem deliver_enabled {conf : Conf} {c : Chan} (h : C02.Reachable conf c) {e :
   have hi := C02.reachable_inv h
   have hf := findE_of_mem hi.core.nodup he
   have hq' : isQueued e = true := by simp [isQueued, hq]
-  simp only [step, hc, hr, hf, hq', Bool.not_true, Bool.false_eq_true, ↓reduceIte, true_and]
+  simp only [step, doDeliver, hc, hr, hf, hq', Bool.not_true, Bool.false_eq_true, ↓reduceIte, true_and]
   exact ⟨_, mem_setE.2 ⟨e, he, rfl⟩, by simp⟩
 
 theorem mem_insertByPri {e x : Entry} {l : List Entry} : x ∈ insertByPri e l ↔ x = e ∨ x ∈ l := by
